@@ -737,13 +737,13 @@ theorem evalTxn_inv {P : Params} {x : Ctx} {l l' : Layer} {g : List Txn} {t : Tx
           exact (hI1.of_views (x' := x) (l' := addTx l1 (txid g t)) (fun _ => rfl) (fun _ => rfl) (fun _ => rfl)).mono hle
 
 theorem groupLoop_inv {P : Params} {x : Ctx} {g : List Txn} {g0 : Nat} {U : List Addr} (hU : U.Nodup) :
-    ∀ (ts : List Txn) (i : Nat) (l l' : Layer), (∀ t ∈ ts, t.sender ∈ U) → AssetInv x l U (counterOf x l) →
-      groupLoop P x g g0 i l ts = .ok l' → AssetInv x l' U (counterOf x l') := by
+    ∀ (ts : List Txn) (used i : Nat) (l l' : Layer), (∀ t ∈ ts, t.sender ∈ U) → AssetInv x l U (counterOf x l) →
+      groupLoop P x g g0 used i l ts = .ok l' → AssetInv x l' U (counterOf x l') := by
   intro ts
   induction ts with
-  | nil => intro i l l' _ hI h; cases h; exact hI
+  | nil => intro used i l l' _ hI h; cases h; exact hI
   | cons t r ih =>
-    intro i l l' hs hI h
+    intro used i l l' hs hI h
     unfold groupLoop at h
     split at h
     · cases h
@@ -752,11 +752,13 @@ theorem groupLoop_inv {P : Params} {x : Ctx} {g : List Txn} {g0 : Nat} {U : List
       · cases h
       · split at h
         · cases h
-        · exact ih _ _ _ (fun t' ht' => hs t' (List.mem_cons_of_mem _ ht')) (evalTxn_inv hU (hs t List.mem_cons_self) hI h1) h
+        · split at h
+          · cases h
+          · exact ih _ _ _ _ (fun t' ht' => hs t' (List.mem_cons_of_mem _ ht')) (evalTxn_inv hU (hs t List.mem_cons_self) hI h1) h
 
-theorem evalGroupChild_inv {P : Params} {x : Ctx} {top child : Layer} {g : List Txn} {U : List Addr}
+theorem evalGroupChild_inv {P : Params} {x : Ctx} {top child : Layer} {used : Nat} {g : List Txn} {U : List Addr}
     (hU : U.Nodup) (hs : ∀ t ∈ g, t.sender ∈ U) (hI : AssetInv x top U (counterOf x top))
-    (h : evalGroupChild P x top g = .ok child) : AssetInv (childCtx x top) child U (counterOf (childCtx x top) child) := by
+    (h : evalGroupChild P x top used g = .ok child) : AssetInv (childCtx x top) child U (counterOf (childCtx x top) child) := by
   unfold evalGroupChild at h
   split at h
   · cases h
@@ -775,7 +777,7 @@ theorem evalGroupChild_inv {P : Params} {x : Ctx} {top child : Layer} {g : List 
                 simp [counterOf, childCtx]
               rw [this]
               exact hI.of_views (fun _ => rfl) (fun _ => rfl) (fun _ => rfl)
-            exact groupLoop_inv hU g 0 {} child hs h0 hc
+            exact groupLoop_inv hU g used 0 {} child hs h0 hc
 
 /-- the invariant holds after every accepted group (read from the committed top layer) -/
 theorem evalGroup_inv {P : Params} {x : Ctx} {s s' : EvalState} {g : List Txn} {U : List Addr}
